@@ -18,7 +18,7 @@ def opt_pass(rep, pid, tier):
     its violations count as violations of this run"""
     import subprocess
     mod = importlib.import_module(f"props.{pid.lower()}")
-    if not getattr(mod, "OPT_PASS", True):
+    if not getattr(mod, "OPT_PASS", True) or os.environ.get("VERIF_NO_OPT") == "1":
         return
     env = dict(os.environ, VERIF_OPT="1", VERIF_TIER="quick")
     r = subprocess.run([sys.executable, "-O", "-X", "faulthandler", os.path.abspath(__file__), pid, "--tier", "quick"],
